@@ -131,6 +131,7 @@ def check_diagnostics(ctx):
 def check_samples(ctx):
     rng = ctx.rng
     reqs, meta = [], []
+    qreqs, qmeta = [], []
     tmp = tempfile.mkdtemp(prefix='c16-')
     try:
         for it in range(ctx.budget(80, 1200)):
@@ -184,6 +185,10 @@ def check_samples(ctx):
                                 if nxt:
                                     allowed.add(float(cols[p][nxt[0]]))
                             break
+                    if allowed is not None:
+                        qreqs.append(dict(op='C13.quantile', x=[q2j(v) for v in cols[p]], w=None if w is None else [q2j(v) for v in w],
+                                          alpha=[alpha_q.numerator, alpha_q.denominator]))
+                        qmeta.append((case, p, float(alpha_q), sorted(allowed), float(got_q)))
                     if allowed is not None and float(got_q) not in allowed:
                         ctx.fail_input(case, 'interval bound %r of %s is not the weighted %s-quantile of the stored samples by its definition (%s)'
                                        % (float(got_q), p, float(alpha_q), sorted(allowed)), sorted(allowed), float(got_q))
@@ -216,6 +221,13 @@ def check_samples(ctx):
             m = a.get('ok', {}).get('mean')
             if m is None or not math.isclose(j2f(m), got, rel_tol=1e-12, abs_tol=1e-12):
                 ctx.corr_break('weighted-mean', case, None if m is None else j2f(m), got)
+        # the interval bounds against the MODEL's weighted quantile (exact rationals; theorem ci95_spec): the model's value is the
+        # definitional one; the code's must equal it unless a cumulative weight ties with the level in exact arithmetic
+        for (case, p, alpha, allowed, got), a in zip(qmeta, ctx.lean.drive(qreqs)):
+            q = a.get('ok', {}).get('q')
+            mq = None if q is None else j2f(q)
+            if mq is None or mq not in allowed or (len(allowed) == 1 and mq != got):
+                ctx.corr_break('interval-quantile', dict(case, parameter=p, alpha=alpha), mq, got)
 
 
 def check_bolfi(ctx):
